@@ -1009,7 +1009,13 @@ impl Element {
                                     var_key,
                                     var_target,
                                     var_target,
-                                    gen_lit_str(value)
+                                    // without `data` the sub-template has no data at all (not the empty string,
+                                    // whose `length` etc. would be visible as fields)
+                                    if value.is_empty() {
+                                        "{}".to_string()
+                                    } else {
+                                        gen_lit_str(value)
+                                    }
                                 )?;
                                 Ok(())
                             }),
